@@ -67,6 +67,10 @@ def mutations(pdu: bytes, extra: Tuple[int, ...]) -> Iterator[bytes]:
         yield pdu[:i] + b"\x00" + pdu[i:]
     yield pdu + b"\x00"
     yield pdu + b"\xff\xff"
+    # a byte that may be a length or a key, set to a large value, with enough bytes behind it to satisfy that length
+    for i in range(len(pdu)):
+        for b in (0x09, 0x41, 0x48, 0x80, 0xFF):
+            yield pdu[:i] + bytes([b]) + pdu[i + 1:] + b"\x11" * 40
 
 
 def judge(part: Part, tag: str, case: Dict[str, Any], pdu: bytes, res: Any, exc: Any, ref_short: bool, what: str) -> None:
@@ -92,8 +96,12 @@ def check_program(L: harness.Loaded, prog: Dict[str, Any], part: Part) -> None:
     tag = tagkey(prog)
     if "pdus" in prog:  # replay of a recorded byte string
         inputs: List[bytes] = list(prog["pdus"])
-    else:
         valid: List[bytes] = []
+    elif prog["tags"][0] == "compu":  # one 8-bit value through a compu method: every byte
+        inputs = [bytes([x]) for x in range(256)] + [b"", b"\x00\x00"]
+        valid = []
+    else:
+        valid = []
         for values in prog["assign"][:6]:
             try:
                 pdu, _, e = L.interp.encode(prog["pid"], values, prog.get("request"))
@@ -284,6 +292,8 @@ def run(ctx: Ctx) -> None:
     for name, progs in a_units:
         for c in range(0, len(progs), chunk):
             units.append((f"{name}/{c // chunk}", progs[c:c + chunk]))
+    for name, progs in space.layer_b_units(ctx.quick):
+        units.append((name, progs))
     ints = space.layer_a_int_units(True)
     units += ints if not ctx.quick else ints[::4]
     ctx.bounds = {"programs": "layer C depth <= %d, layer A" % (2 if ctx.quick else 3), "mutations": "all strict prefixes, substitutions by %s + program bytes + orig+-1 at every position, one insertion/deletion at every position" % (list(SUBST),),
